@@ -152,17 +152,37 @@ def probeTimer : Effect → Bool
   | .timer _ (.probe _) => true
   | _ => false
 
-/-- `f` keeps the member list, the connection state, the timer token and the (ghost) epoch — everything the
-    effect-aware invariants look at; it may write anything else -/
+/-- the recurring loops: the probe round and the three periodic tasks -/
+def Timer.isLoop : Timer → Bool
+  | .probe _ => true
+  | .pa _ => true
+  | .pad _ => true
+  | .pg _ => true
+  | _ => false
+
+/-- which loop a timer belongs to (as a number: 0 probe, 1 announce, 2 announce-to-down, 3 gossip) -/
+def Timer.loopNo : Timer → Option Nat
+  | .probe _ => some 0
+  | .pa _ => some 1
+  | .pad _ => some 2
+  | .pg _ => some 3
+  | _ => none
+
+def loopTimer : Effect → Bool
+  | .timer _ t => t.isLoop
+  | _ => false
+
+/-- `f` keeps the member list, the connection state, the timer token, the (ghost) epoch and the configuration —
+    everything the effect-aware invariants look at; it may write anything else -/
 def Keep4 (f : State → State) : Prop :=
-  ∀ s, (f s).ms = s.ms ∧ (f s).conn = s.conn ∧ (f s).token = s.token ∧ (f s).epoch = s.epoch
+  ∀ s, (f s).ms = s.ms ∧ (f s).conn = s.conn ∧ (f s).token = s.token ∧ (f s).epoch = s.epoch ∧ (f s).cfg = s.cfg
 
 /-- leaf obligations of an effect-aware invariant. `special` marks the effects the invariant accounts for (they
     are emitted only inside the unit leaves); the four connection-state transitions and the two units in which
     membership and its notifications change together are leaves. -/
 structure LeavesC (E : Env) (P : State → List Effect → Prop) (special : Effect → Bool) : Prop where
   /-- only membership notifications and probe timers may be special -/
-  plain : ∀ e, memberNote e = false → probeTimer e = false → special e = false
+  plain : ∀ e, memberNote e = false → loopTimer e = false → special e = false
   keep : ∀ f, Keep4 f → PresC P (modS f)
   emitOther : ∀ e, special e = false → PresC P (emit e)
   removeDown : ∀ id, PresC P (modS fun s => { s with ms := removeIfDown s.ms id })
@@ -174,6 +194,7 @@ structure LeavesC (E : Env) (P : State → List Effect → Prop) (special : Effe
   becomeUndead : PresC P Foca.becomeUndead
   /-- going idle / becoming active, with the check of the connection state that guards them -/
   adjustConnectionState : PresC P (Foca.adjustConnectionState E)
+  setConfig : ∀ cfg, PresC P (Foca.setConfig cfg)
 
 section
 variable {E : Env} {P : State → List Effect → Prop} {special : Effect → Bool} (L : LeavesC E P special)
@@ -203,13 +224,13 @@ theorem LeavesC.announceToDown (n : Nat) : PresC P (Foca.announceToDown E n) := 
 
 theorem LeavesC.addUpdate (m : Member) : PresC P (Foca.addUpdate E m) := by
   unfold Foca.addUpdate
-  exact L.keep _ (fun _ => ⟨rfl, rfl, rfl, rfl⟩)
+  exact L.keep _ (fun _ => ⟨rfl, rfl, rfl, rfl, rfl⟩)
 
 theorem LeavesC.changeIdentity (i : Id) (p : Policy) : PresC P (Foca.changeIdentity E i p) := by
   unfold Foca.changeIdentity
   presc
   all_goals first
-    | exact L.keep _ (fun _ => ⟨rfl, rfl, rfl, rfl⟩)
+    | exact L.keep _ (fun _ => ⟨rfl, rfl, rfl, rfl, rfl⟩)
     | exact L.reset
     | exact L.addUpdate _
     | exact L.gossip
@@ -228,7 +249,7 @@ theorem LeavesC.handleSelfUpdate (inc : Nat) (st : St) : PresC P (Foca.handleSel
     | exact L.attemptRejoin
     | exact L.becomeUndead
     | exact L.gossip
-    | exact L.keep _ (fun _ => ⟨rfl, rfl, rfl, rfl⟩)
+    | exact L.keep _ (fun _ => ⟨rfl, rfl, rfl, rfl, rfl⟩)
 
 theorem LeavesC.applyOne (u : Member) (b : Bool) : PresC P (Foca.applyOne E u b) := by
   unfold Foca.applyOne
@@ -274,23 +295,18 @@ theorem LeavesC.leaveCluster : PresC P (Foca.leaveCluster E) := by
 theorem LeavesC.addBroadcast (d : Bytes) : PresC P (Foca.addBroadcast E d) := by
   unfold Foca.addBroadcast
   presc
-  all_goals exact L.keep _ (fun _ => ⟨rfl, rfl, rfl, rfl⟩)
+  all_goals exact L.keep _ (fun _ => ⟨rfl, rfl, rfl, rfl, rfl⟩)
 
 theorem LeavesC.reuseDownIdentity : PresC P Foca.reuseDownIdentity := by
   unfold Foca.reuseDownIdentity
   presc
   exact L.reset
 
-theorem LeavesC.setConfig (cfg : Config) : PresC P (Foca.setConfig cfg) := by
-  unfold Foca.setConfig
-  presc
-  exact L.keep _ (fun _ => ⟨rfl, rfl, rfl, rfl⟩)
-
 theorem LeavesC.probeSuspectFailed : PresC P (Foca.probeSuspectFailed E) := by
   unfold Foca.probeSuspectFailed
   presc
   all_goals first
-    | exact L.keep _ (fun _ => ⟨rfl, rfl, rfl, rfl⟩)
+    | exact L.keep _ (fun _ => ⟨rfl, rfl, rfl, rfl, rfl⟩)
     | exact L.applyExistingReport _ _
     | exact L.emitOther _ (L.plain _ rfl rfl)
 
@@ -299,19 +315,8 @@ theorem LeavesC.probeStartNext : PresC P (Foca.probeStartNext E) := by
   presc
   all_goals first
     | exact L.membersNext
-    | exact L.keep _ (fun _ => ⟨rfl, rfl, rfl, rfl⟩)
+    | exact L.keep _ (fun _ => ⟨rfl, rfl, rfl, rfl, rfl⟩)
     | exact L.sendMessage _ _
-    | exact L.emitOther _ (L.plain _ rfl rfl)
-
-theorem LeavesC.probeRandomMember (hemit : ∀ p tok, PresC P (emit (.timer p (.probe tok)))) :
-    PresC P (Foca.probeRandomMember E) := by
-  unfold Foca.probeRandomMember
-  presc
-  all_goals first
-    | exact L.keep _ (fun _ => ⟨rfl, rfl, rfl, rfl⟩)
-    | exact L.probeSuspectFailed
-    | exact L.probeStartNext
-    | exact hemit _ _
     | exact L.emitOther _ (L.plain _ rfl rfl)
 
 theorem LeavesC.pingReqLoop (probed : Id) (ds : List Id) : PresC P (Foca.pingReqLoop E probed ds) := by
@@ -320,27 +325,61 @@ theorem LeavesC.pingReqLoop (probed : Id) (ds : List Id) : PresC P (Foca.pingReq
   | cons d rest ih =>
     unfold Foca.pingReqLoop
     presc
-    · exact L.keep _ (fun _ => ⟨rfl, rfl, rfl, rfl⟩)
+    · exact L.keep _ (fun _ => ⟨rfl, rfl, rfl, rfl, rfl⟩)
     · exact L.sendMessage _ _
     · exact ih
 
-/-- the probe timer's branch of `handle_timer`, for an invariant that lets the probe timer be re-armed freely -/
-theorem LeavesC.probeBranch (hemit : ∀ p tok, PresC P (emit (.timer p (.probe tok)))) (tok : Nat) :
-    PresC P (Foca.handleTimer E (.probe tok)) := by
-  unfold Foca.handleTimer
-  presc
-  exact L.probeRandomMember hemit
+/-- the branch of `handle_timer` for a loop timer `t`, for an invariant that lets the timers of that loop be
+    re-armed freely -/
+theorem LeavesC.loopBranch (t : Timer) (ht : t.isLoop = true)
+    (hemit : ∀ p t', t'.loopNo = t.loopNo → PresC P (emit (.timer p t'))) : PresC P (Foca.handleTimer E t) := by
+  cases t with
+  | probe tok =>
+    unfold Foca.handleTimer
+    presc
+    unfold Foca.probeRandomMember
+    presc
+    all_goals first
+      | exact L.keep _ (fun _ => ⟨rfl, rfl, rfl, rfl, rfl⟩)
+      | exact L.probeSuspectFailed
+      | exact L.probeStartNext
+      | exact hemit _ _ rfl
+      | exact L.emitOther _ (L.plain _ rfl rfl)
+  | pa tok =>
+    unfold Foca.handleTimer
+    presc
+    all_goals first
+      | exact hemit _ _ rfl
+      | exact L.chooseAndSend _ _
+  | pad tok =>
+    unfold Foca.handleTimer
+    presc
+    all_goals first
+      | exact hemit _ _ rfl
+      | exact L.announceToDown _
+  | pg tok =>
+    unfold Foca.handleTimer
+    presc
+    all_goals first
+      | exact hemit _ _ rfl
+      | exact L.chooseAndSend _ _
+  | indirect p tok => simp [Timer.isLoop] at ht
+  | s2d m inc tok => simp [Timer.isLoop] at ht
+  | rm m => simp [Timer.isLoop] at ht
 
-/-- `handle_timer`; the probe timer's branch is a hypothesis -/
-theorem LeavesC.handleTimer (t : Timer) (hprobe : ∀ tok, t = .probe tok → PresC P (Foca.handleTimer E (.probe tok))) :
+/-- `handle_timer`; the branches of the loop timers are a hypothesis -/
+theorem LeavesC.handleTimer (t : Timer) (hloop : t.isLoop = true → PresC P (Foca.handleTimer E t)) :
     PresC P (Foca.handleTimer E t) := by
   cases t with
-  | probe tok => exact hprobe tok rfl
+  | probe tok => exact hloop rfl
+  | pa tok => exact hloop rfl
+  | pad tok => exact hloop rfl
+  | pg tok => exact hloop rfl
   | indirect p tok =>
     unfold Foca.handleTimer
     presc
     all_goals first
-      | exact L.keep _ (fun _ => ⟨rfl, rfl, rfl, rfl⟩)
+      | exact L.keep _ (fun _ => ⟨rfl, rfl, rfl, rfl, rfl⟩)
       | exact L.pingReqLoop _ _
   | s2d m inc tok =>
     unfold Foca.handleTimer
@@ -349,24 +388,6 @@ theorem LeavesC.handleTimer (t : Timer) (hprobe : ∀ tok, t = .probe tok → Pr
       | exact L.applyExistingReport _ _
       | exact L.adjustConnectionState
       | exact L.sendMessage _ _
-  | pa tok =>
-    unfold Foca.handleTimer
-    presc
-    all_goals first
-      | exact L.emitOther _ (L.plain _ rfl rfl)
-      | exact L.chooseAndSend _ _
-  | pad tok =>
-    unfold Foca.handleTimer
-    presc
-    all_goals first
-      | exact L.emitOther _ (L.plain _ rfl rfl)
-      | exact L.announceToDown _
-  | pg tok =>
-    unfold Foca.handleTimer
-    presc
-    all_goals first
-      | exact L.emitOther _ (L.plain _ rfl rfl)
-      | exact L.chooseAndSend _ _
   | rm m =>
     unfold Foca.handleTimer
     presc
@@ -379,7 +400,7 @@ theorem LeavesC.customLoop (sender : Option Id) (fuel : Nat) (data : Bytes) : Pr
     unfold Foca.customLoop
     presc
     all_goals first
-      | exact L.keep _ (fun _ => ⟨rfl, rfl, rfl, rfl⟩)
+      | exact L.keep _ (fun _ => ⟨rfl, rfl, rfl, rfl, rfl⟩)
       | exact ih _
 
 theorem LeavesC.handleCustomBroadcasts (data : Bytes) (sender : Option Id) :
@@ -392,7 +413,7 @@ theorem LeavesC.reactToMessage (h : Header) : PresC P (Foca.reactToMessage E h) 
   unfold Foca.reactToMessage
   presc
   all_goals first
-    | exact L.keep _ (fun _ => ⟨rfl, rfl, rfl, rfl⟩)
+    | exact L.keep _ (fun _ => ⟨rfl, rfl, rfl, rfl, rfl⟩)
     | exact L.sendMessage _ _
     | exact L.handleSelfUpdate _ _
 
@@ -419,11 +440,11 @@ theorem LeavesC.handleData (data : Bytes) : PresC P (Foca.handleData E data) := 
     | exact L.replyStage _ _
 
 theorem LeavesC.runOp (op : Op)
-    (hprobe : ∀ tok, op = .timer (.probe tok) → PresC P (Foca.handleTimer E (.probe tok))) :
+    (hloop : ∀ t, op = .timer t → t.isLoop = true → PresC P (Foca.handleTimer E t)) :
     PresC P (Foca.runOp E op) := by
   cases op <;> unfold Foca.runOp <;> presc
   all_goals first
-    | exact L.handleTimer _ (fun tok h => hprobe tok (by rw [h]))
+    | exact L.handleTimer _ (fun h => hloop _ rfl h)
     | exact L.applyMany _ _
     | exact L.handleData _
     | exact L.sendMessage _ _
